@@ -33,6 +33,8 @@ def argv_of(f, paths):
     a = []
     if f["short"]:
         a.append("-" + f["short"])
+    if f.get("short2"):
+        a.append("-" + f["short2"])
     if f["mov"]:
         a.append("--%s-mov-imm" % f["mov"])
     if f["sib"]:
